@@ -26,7 +26,7 @@ import numpy as np
 from hypothesis import strategies as st
 
 from vlib import dsops, env, oracles
-from vlib.core import Stage
+from vlib.core import Stage, hang_is_violation
 
 ID = "C18"
 LEVEL = "exploration"
@@ -413,5 +413,8 @@ STAGES = [
               "thorough": 20000
           },
           fork=True,
-          rust=True)
+          rust=True,
+          timeout=150,
+          timeout_violation=hang_is_violation(
+              "accept-readable", "a session with caught rejected writes (or reading back after it)"))
 ]
